@@ -474,7 +474,7 @@ def pick_ohdr_addr(rng, i):
         return rng.choice(OHDR_ADDRS)
     if r < 0.85:
         return rng.randrange(0, 600)
-    return rng.randrange(600, 70000)
+    return rng.randrange(600, 20000)
 
 
 def ohdr_pre(rng, addr):
@@ -651,14 +651,16 @@ class OhdrV1ContK(OhdrV2):
         return sum((8 + len(m["data"]) // 2 + 7) // 8 * 8 for m in ms)
 
     def gen(self, rng, i):
-        addr = pick_ohdr_addr(rng, i)
-        if addr > 5000:
-            addr = addr % 5000
+        # the first 64 values: every pair (header address mod 8, block address mod 8)
+        if i < 64:
+            addr, want = rng.choice([a for a in OHDR_ADDRS if a % 8 == i % 8]), i // 8
+        else:
+            addr, want = pick_ohdr_addr(rng, i) % 5000, rng.randrange(8)
         a0, b0 = self.msgs(rng, 0, 3), self.msgs(rng, 0, 2)
         blk = self.msgs(rng, 2, 5)
         # the block address takes every residue modulo 8, whatever the header's address is
         blk_addr0 = addr + 16 + self.span(a0) + 24 + self.span(b0)
-        gap = (i // 2 - blk_addr0) % 8 + 8 * rng.choice([0, 0, 1, 5])
+        gap = (want - blk_addr0) % 8 + 8 * rng.choice([0, 0, 1, 5])
         between = rbytes(rng, gap)
         blk_addr, blk_size = blk_addr0 + gap, self.span(blk)
         cont = dict(type=16, data=(blk_addr.to_bytes(8, "little") + blk_size.to_bytes(8, "little")).hex())
